@@ -259,7 +259,11 @@ def _update_opset_imports(
     graph_or_function: ir.Graph | ir.Function, delta: ReplacementSubgraph
 ):
     imports = graph_or_function.opset_imports
-    for domain, version in delta.used_opsets:
+    # used_opsets is a set: iterate it in a fixed order so that the order of the opset imports
+    # added here (and hence the serialized model) does not depend on PYTHONHASHSEED.
+    for domain, version in sorted(
+        delta.used_opsets, key=lambda opset: (opset[0], opset[1] is not None, opset[1] or 0)
+    ):
         if domain not in imports:
             # use 1 as default version if not explicitly specified
             imports[domain] = version if version is not None else 1
